@@ -261,6 +261,31 @@ def _mv(w, seed, spec):
     xs = jnp.asarray(rng.standard_normal((3, 4)), dtype=jnp.float32)
     if not close(D(shared, S((3, 4)), subs)(xs), np.einsum(subs, np.asarray(shared), np.asarray(xs)), 1e-4):
         fails.append('single leaf: result is not einsum(subscripts, blocks, x)')
+    # plain 2-D blocks against inputs with 0, 1, 2 and 3 extra dimensions, default and other subscripts (a matrix-product
+    # shortcut agrees with einsum only up to one extra dimension), single leaf, shared blocks over a pytree, per-leaf blocks
+    m33 = jnp.asarray(rng.integers(-3, 4, (3, 3)), dtype=jnp.float32)
+    m23 = jnp.asarray(rng.integers(-3, 4, (2, 3)), dtype=jnp.float32)
+    for blocks, ss in ((m33, subs), (m23, subs), (m33, 'ji...,j...->i...'), (m33, 'ij,...j->...i')):
+        for extra in ((), (3,), (3, 2), (3, 3, 2)):
+            shape = (3,) + extra if ss.startswith(('ij.', 'ji.')) else extra + (3,)
+            xs = jnp.asarray(rng.standard_normal(shape), dtype=jnp.float32)
+            ref = np.einsum(ss, np.asarray(blocks), np.asarray(xs))
+            try:
+                op = D(blocks, S(shape), ss)
+                if not close(op(xs), ref, 1e-4):
+                    fails.append(f'2-d blocks {tuple(blocks.shape)}, {ss!r}, input {shape}: result is not einsum(subscripts, blocks, x)')
+                tree = {'p': S(shape), 'q': S(shape)}
+                xt = rand_tree(tree, seed + len(shape))
+                yt = D(blocks, tree, ss)(xt)
+                if any(not close(yt[k], np.einsum(ss, np.asarray(blocks), np.asarray(xt[k])), 1e-4) for k in tree):
+                    fails.append(f'2-d shared blocks {tuple(blocks.shape)}, {ss!r}, pytree of {shape}: not einsum per leaf')
+                yp = D({'p': blocks, 'q': 2 * blocks}, tree, ss)(xt)
+                if not close(yp['q'], np.einsum(ss, 2 * np.asarray(blocks), np.asarray(xt['q'])), 1e-4):
+                    fails.append(f'2-d per-leaf blocks {tuple(blocks.shape)}, {ss!r}, pytree of {shape}: not einsum per leaf')
+            except Exception as e:      # noqa: BLE001
+                fails.append(f'2-d blocks {tuple(blocks.shape)}, {ss!r}, input {shape}: raises {type(e).__name__}: {str(e)[:80]}')
+            if len(fails) > 6:
+                return fails
     # constructor validation
     for bad, why in [('ij,j,k->i', 'two commas'), ('ij,j', 'no arrow'), ('ij->i', 'no comma'), ('ij,j->i->k', 'two arrows')]:
         try:
